@@ -42,3 +42,6 @@ pub(crate) use solver::SchedulingSolution;
 #[cfg(feature = "verif")]
 #[allow(unused_imports)]
 pub(crate) use taskqueue::{OneOrMoreTaskIds, TaskQueue};
+#[cfg(feature = "verif")]
+#[allow(unused_imports)]
+pub(crate) use solver::verif_log;
